@@ -128,6 +128,19 @@ CHECKS = {
              "function (tanh) is not shown sign-consistent over the reals here, polar BP and the interleaved variants have oracles / executable "
              "models but no theorem; float32 underflow region excluded (A-float). Closed under the global context.",
         technique="Coq proof (induction on the recursion depth over lists; Kronecker recursion; counting lemma for the information set; kernel computation on the regenerated table) + model/implementation correspondence by vm_compute"),
+    "C10": dict(
+        text="Coq theorems over exact rationals: the Wagner decoder returns, for EVERY non-empty real input (ties included), an even-parity "
+             "word of maximum correlation (ML for the single-parity-check code); flooding BP / min-sum on ANY parity-check matrix returns the "
+             "transmitted codeword from noise-free LLRs of any positive magnitudes after ANY number of iterations, for every sign-consistent "
+             "check-node function (invariant: every check-to-variable message is zero or carries its variable's bit; induction over "
+             "iterations); the min-sum update with positive scaling is sign consistent; |.| and sign are homogeneous. Models evaluated in Coq "
+             "on exact dyadic inputs against the Wagner decoder (1-D, batched, multi-block) and against MinSumLDPCDecoder posteriors "
+             "(scaling/offset/iterations), exact comparison.",
+        design="6/C10",
+        note="Trusted: Coq kernel + vm_compute; partial: sign consistency of the tanh rule, exactness of sum-product on cycle-free graphs and end-to-end "
+             "min-sum scale invariance are not formalised (checked on the implementation against a float64 brute-force reference / by rescaled runs); "
+             "soft Reed-Muller is checked on the implementation only. Closed under the global context.",
+        technique="Coq proof (loss decomposition for Wagner; message-sign invariant by induction over iterations for BP) + exact model/implementation correspondence by vm_compute"),
 }
 NOT_YET = {}
 
